@@ -616,22 +616,40 @@ func c18Failure(c *Ctx) {
 			scope = append(scope, f) // helpers Step is split into; Bindings.Copy (package match) stays a leaf
 		}
 	}
-	var actErr ssa.Value
-	ssau.Instrs(step, func(in ssa.Instruction) {
-		if ex, ok := in.(*ssa.Extract); ok && ex.Index == 1 {
-			if cl, ok := ex.Tuple.(*ssa.Call); ok && cl.Common().IsInvoke() && cl.Common().Method.Name() == "Exec" {
-				actErr = ex
+	// (branch evaluation is not part of "Step and the helpers it runs the action in")
+	var stepFns []*ssa.Function
+	{
+		skip := map[*ssa.Function]bool{}
+		if cons := c.P.Func("core", "Branches", "consider"); cons != nil {
+			for _, f := range pkgClosure(cons) {
+				skip[f] = true
 			}
 		}
-	})
+		for _, f := range scope {
+			if !skip[f] {
+				stepFns = append(stepFns, f)
+			}
+		}
+	}
+	var actErr ssa.Value
+	for _, f := range stepFns {
+		ssau.Instrs(f, func(in ssa.Instruction) {
+			if ex, ok := in.(*ssa.Extract); ok && ex.Index == 1 {
+				if cl, ok := ex.Tuple.(*ssa.Call); ok && cl.Common().IsInvoke() && cl.Common().Method.Name() == "Exec" {
+					actErr = ex
+				}
+			}
+		})
+	}
 	if actErr == nil {
 		c.R.Break("C18-R5: Step does not execute the node's action")
 		return
 	}
-	failedAt := func(b *ssa.BasicBlock) bool {
-		for _, f := range flow.FactsAt(b) {
+	// verdict of a fact set about the action: +1 it failed, -1 it succeeded, 0 unknown
+	verdict := func(fs []flow.Fact) int {
+		for _, f := range fs {
 			bo, ok := f.Cond.(*ssa.BinOp)
-			if !ok {
+			if !ok || (bo.Op != token.NEQ && bo.Op != token.EQL) {
 				continue
 			}
 			var v ssa.Value
@@ -643,112 +661,120 @@ func c18Failure(c *Ctx) {
 			default:
 				continue
 			}
-			if !((bo.Op == token.NEQ && f.True) || (bo.Op == token.EQL && !f.True)) {
-				continue
-			}
-			ds := deepDefs(v, scope)
-			only := len(ds) > 0
-			for _, d := range ds {
-				if d != actErr {
+			hit, only := false, true
+			for _, d := range deepDefs(v, stepFns) {
+				switch {
+				case d == actErr:
+					hit = true
+				case ssau.IsNilConst(d):
+				default:
 					only = false
 				}
 			}
-			if only {
-				return true
+			if !hit || !only {
+				continue
+			}
+			if (bo.Op == token.NEQ) == f.True {
+				return 1
+			}
+			// "is nil": a success only if the value is the action's error and nothing else
+			if ds := deepDefs(v, stepFns); len(ds) == 1 {
+				return -1
 			}
 		}
-		return false
+		return 0
 	}
+	failedAt := func(b *ssa.BasicBlock) bool { return verdict(flow.FactsAt(b)) == 1 }
 	var stParam *ssa.Parameter
 	for _, p := range step.Params {
 		if ssau.TypeIs(p.Type(), prog.Abs("core"), "State") {
 			stParam = p
 		}
 	}
-	// judge: the leaves of a bindings value used on the failure path
-	judge := func(v ssa.Value, at *ssa.BasicBlock) (bool, string) {
-		okAny := false
-		for _, da := range phiEdgesWithBlocks(v, at) {
-			if !failedAt(da.b) && da.b != at {
-				continue // an edge from the success path
+	// judgeLeaf: one definition of a bindings value used on the failure path
+	judgeLeaf := func(d ssa.Value) (bool, string) {
+		if _, is := isFieldLoad(d, "core", "Execution", "Bs"); is {
+			return false, "they can be the failed execution's bindings (" + c.posv(d) + "), which carry none of the machine's permanent bindings"
+		}
+		cl, isCall := d.(*ssa.Call)
+		if !isCall {
+			if _, is := isFieldLoad(d, "core", "State", "Bs"); is {
+				return true, "" // the given bindings themselves (C06 decides that they are not written)
 			}
-			for _, d := range deepDefs(da.v, scope) {
-				if _, is := isFieldLoad(d, "core", "Execution", "Bs"); is {
-					return false, "they can be the failed execution's bindings (" + c.posv(d) + "), which carry none of the machine's permanent bindings"
-				}
-				cl, isCall := d.(*ssa.Call)
-				if !isCall {
-					if _, is := isFieldLoad(d, "core", "State", "Bs"); is {
-						okAny = true // the given bindings themselves (C06 decides that they are not written)
+			return false, "they can be " + d.String() + " (" + c.posv(d) + ")"
+		}
+		sc := cl.Common().StaticCallee()
+		switch {
+		case sc != nil && sc.Name() == "Copy" && len(cl.Common().Args) == 1:
+			// a copy of what? follow the receiver
+			for _, r := range deepDefs(cl.Common().Args[0], scope) {
+				if base, is := isFieldLoad(r, "core", "State", "Bs"); !is || (stParam != nil && base != ssa.Value(stParam)) {
+					if c2, isC2 := r.(*ssa.Call); isC2 && c2.Common().StaticCallee() != nil && c2.Common().StaticCallee().Name() == "Copy" {
 						continue
 					}
-					return false, "they can be " + d.String() + " (" + c.posv(d) + ")"
-				}
-				sc := cl.Common().StaticCallee()
-				switch {
-				case sc != nil && sc.Name() == "Copy" && len(cl.Common().Args) == 1:
-					// a copy of what? follow the receiver
-					rok := true
-					for _, r := range deepDefs(cl.Common().Args[0], scope) {
-						if base, is := isFieldLoad(r, "core", "State", "Bs"); !is || (stParam != nil && base != ssa.Value(stParam)) {
-							if c2, isC2 := r.(*ssa.Call); isC2 && c2.Common().StaticCallee() != nil && c2.Common().StaticCallee().Name() == "Copy" {
-								continue
-							}
-							rok = false
-						}
-					}
-					if !rok {
-						return false, "they can be a copy of something other than the given state's bindings (" + c.pos(cl) + ")"
-					}
-					okAny = true
-				case sc != nil && (sc.Name() == "Extend" || sc.Name() == "Extendm"):
-					okAny = true // extension of a value judged at its own site
-				default:
-					return false, "they can be the result of " + ssau.CalleeName(cl) + " (" + c.pos(cl) + "), not the machine's bindings"
+					return false, "they can be a copy of something other than the given state's bindings (" + c.pos(cl) + ")"
 				}
 			}
+			return true, ""
+		case sc != nil && (sc.Name() == "Extend" || sc.Name() == "Extendm"):
+			return true, "" // extension of a value judged at its own site
 		}
-		return okAny, "no definition found on the failure path"
+		return false, "they can be the result of " + ssau.CalleeName(cl) + " (" + c.pos(cl) + "), not the machine's bindings"
+	}
+	// judge: every way the value can come about that is not known to be the success path
+	judge := func(v ssa.Value, at *ssa.BasicBlock, onlyFailed bool) (bool, string, int) {
+		var base []flow.Fact
+		if at != nil {
+			base = flow.FactsAt(at)
+		}
+		seen := 0
+		for _, src := range sourcesWithFactsAt(v, stepFns, base) {
+			vd := verdict(flow.Expand(src.facts))
+			if vd == -1 || (onlyFailed && vd != 1) {
+				continue
+			}
+			seen++
+			if ok, why := judgeLeaf(src.leaf); !ok {
+				return false, why, seen
+			}
+		}
+		return seen > 0, "no definition found on the failure path", seen
 	}
 	n := 0
-	ssau.Instrs(step, func(in ssa.Instruction) {
-		switch x := in.(type) {
-		case *ssa.Store:
-			if !ssau.IsField(x.Addr, prog.Abs("core"), "State", "Bs") || !failedAt(x.Block()) {
-				return
-			}
-			_, _, base, _ := ssau.FieldOf(x.Addr)
-			if !localFresh(base) {
-				return
-			}
-			n++
-			ok, why := judge(x.Val, x.Block())
-			c.R.Check(ok, "C18-R5", fmt.Sprintf("Step: bindings of the error state #%d", n), c.pos(x), "a copy of the given state's bindings (extended with the error texts)", "after a failed action the next state's bindings are not the machine's: "+why)
-		case *ssa.Call:
-			sc := x.Common().StaticCallee()
-			if sc == nil || sc.Name() != "consider" {
-				return
-			}
-			// the bindings operand: the argument of Bindings type
-			for _, a := range x.Common().Args {
-				if !isBindingsT(a.Type()) {
-					continue
+	for _, f := range stepFns {
+		ssau.Instrs(f, func(in ssa.Instruction) {
+			switch x := in.(type) {
+			case *ssa.Store:
+				if !ssau.IsField(x.Addr, prog.Abs("core"), "State", "Bs") || !failedAt(x.Block()) {
+					return
 				}
-				hasFailEdge := false
-				for _, da := range phiEdgesWithBlocks(a, x.Block()) {
-					if failedAt(da.b) {
-						hasFailEdge = true
-					}
-				}
-				if !hasFailEdge {
-					continue
+				_, _, base, _ := ssau.FieldOf(x.Addr)
+				if !localFresh(base) {
+					return
 				}
 				n++
-				ok, why := judge(a, nil)
-				c.R.Check(ok, "C18-R5", fmt.Sprintf("Step: bindings handed to branch evaluation after a failed action #%d", n), c.pos(x), "a copy of the given state's bindings (extended with the error texts)", "after a failed action the branches are evaluated on bindings that are not the machine's: "+why)
+				ok, why, _ := judge(x.Val, x.Block(), false)
+				c.R.Check(ok, "C18-R5", fmt.Sprintf("Step: bindings of the error state #%d", n), c.pos(x), "a copy of the given state's bindings (extended with the error texts)", "after a failed action the next state's bindings are not the machine's: "+why)
+			case *ssa.Call:
+				sc := x.Common().StaticCallee()
+				if sc == nil || sc.Name() != "consider" {
+					return
+				}
+				// the bindings operand: the argument of Bindings type
+				for _, a := range x.Common().Args {
+					if !isBindingsT(a.Type()) {
+						continue
+					}
+					ok, why, seen := judge(a, x.Block(), true)
+					if seen == 0 {
+						continue
+					}
+					n++
+					c.R.Check(ok, "C18-R5", fmt.Sprintf("Step: bindings handed to branch evaluation after a failed action #%d", n), c.pos(x), "a copy of the given state's bindings (extended with the error texts)", "after a failed action the branches are evaluated on bindings that are not the machine's: "+why)
+				}
 			}
-		}
-	})
+		})
+	}
 	if n == 0 {
 		c.R.Break("C18-R5: no use of bindings on the action-failure path of Step found")
 	}
